@@ -6,6 +6,8 @@ R11.1 check_and_transform_grammar_with_ignored: success is dominated by non_prod
 R11.2 the only GrammarAnalysisError variants constructed in grammar_trans are NonProductiveNonTerminals,
       UnreachableNonTerminals, LeftRecursion, each exactly once and on the non-empty edge of its own test;
       the LR branch performs no left-recursion rejection.
+R11.4 monotone change flags: in the fixpoint loops of the analyses (left recursion closure etc.) the `changed` flag is
+      only accumulated (`|=`) or set to a constant inside nested loops - a necessary condition for reaching the fixpoint.
 R11.3 the public entry check_and_transform_grammar delegates with an empty ignore set.
 Exactness of the computed sets (fixpoints over arbitrary grammars) is NOT decided.
 """
@@ -110,6 +112,9 @@ def check(ctx):
               "R11.2", "lr|no-left-recursion-rejection", "the LALR(1) branch does not reject left recursion",
               "the LALR(1) branch rejects grammars (left recursion is legal for LR)", where(lr))
 
+    # ---------------------------------------------------------------- R11.4
+    monotone_change_flags(ctx, facts, "R11.4", ["parol::analysis", "parol::grammar", "parol::transformation"], 1)
+
     # ---------------------------------------------------------------- R11.3
     cs = entry.calls_to(M + "check_and_transform_grammar_with_ignored")
     ok = len(cs) == 1 and cs[0].dest == [0]
@@ -120,3 +125,65 @@ def check(ctx):
     ctx.check(ok, "R11.3", "check_and_transform_grammar|delegates-with-empty-ignore-set",
               "the public entry delegates to the checked variant with BTreeSet::new()",
               "check_and_transform_grammar does not delegate with an empty ignore set", where(entry))
+
+
+# ---------------------------------------------------------------------------------------------------- R11.4
+def monotone_change_flags(ctx, facts, rule, modules, floor):
+    """fixpoint loops `while changed { changed = false; for x in .. { .. changed |= grew; } }`:
+    inside a loop that is nested in the loop controlled by the flag, the flag may only be set to a constant or
+    accumulated with `|=`; a plain `changed = <expr>` there forgets that an earlier element changed and the
+    iteration stops before the fixpoint is reached (the computed set is too small)."""
+    n = 0
+    for b in facts.in_crate(PA):
+        if not any(b.module == m or b.module.startswith(m + "::") for m in modules):
+            continue
+        loops = cfg.natural_loops(b)
+        if not loops:
+            continue
+        for flag, (ty, name) in enumerate(b.locals):
+            if ty != "bool" or not name:
+                continue
+            defs = [d for d in b.defs(flag) if d[0] == "assign"]
+            if len(defs) < 2:
+                continue
+            # loops controlled by the flag: a switch on (a copy of) the flag with an edge leaving the loop
+            controlled = []
+            for h, blocks, backs in loops:
+                for d in blocks:
+                    t = b.term(d)
+                    if t[0] != "switch":
+                        continue
+                    term = operand_term(b, t[1])
+                    while term[0] == "un" and term[1] == "Not":
+                        term = term[2]
+                    if term[0] in ("path", "local") and term[1] == flag and not (term[0] == "path" and term[2]):
+                        if any(s not in blocks for s in b.succs(d)):
+                            controlled.append((h, blocks))
+            if not controlled:
+                continue
+            h, blocks = max(controlled, key=lambda x: len(x[1]))
+            n += 1
+            bad = []
+            for kind, bi, si, rv in defs:
+                if bi not in blocks:
+                    continue
+                if rv[0] == "use" and rv[1][0] == "k":
+                    continue
+                if rv[0] == "bin" and rv[1] == "BitOr":
+                    ops = [operand_term(b, rv[2]), operand_term(b, rv[3])]
+                    if any(o[0] in ("path", "local") and o[1] == flag for o in ops):
+                        continue
+                nested = [l for l in loops if bi in l[1] and l[1] < blocks]
+                if nested:
+                    bad.append(b.stmts(bi)[si][3])
+            key = "%s|flag-%s" % (fn_key(b, facts), name)
+            ctx.check(not bad, rule, key,
+                      "the change flag `%s` of the fixpoint loop is only set to constants or accumulated with |= inside nested "
+                      "loops" % name,
+                      "the change flag `%s` is overwritten (not accumulated) inside a nested loop at line(s) %s: a change seen "
+                      "for an earlier element is forgotten, the fixpoint iteration can stop early and the computed set is "
+                      "incomplete" % (name, bad), where(b, bad[0] if bad else None))
+    ctx.require_floor(rule, "fixpoint_loops", n, floor)
+
+
+from .common import fn_key  # noqa: E402
